@@ -654,6 +654,10 @@ def marked_sites(F, scc_of):
                             h = type_head(ty)
                             if h and "::" in h and not h.startswith("std::"):
                                 mark_owner.setdefault((g, c.bb), set()).add(h)
+                            elif re.match(r"std::collections::(BTreeSet|HashSet|BTreeMap|HashMap)<", ty):
+                                # the set itself is handed round as a parameter (`visited: &mut BTreeSet<File>`): it is
+                                # its own owner, under its full type
+                                mark_owner.setdefault((g, c.bb), set()).add(ty)
         for c in f.calls:
             for bi in dom.get(c.bb, ()):
                 if bi in marks and bi != c.bb:
@@ -689,30 +693,39 @@ def marked_sites(F, scc_of):
             h = type_head(ty)
             if h:
                 byval[i].setdefault(h, g)
+            if re.match(r"std::collections::(BTreeSet|HashSet|BTreeMap|HashMap)<", ty):
+                byval[i].setdefault(ty, g)
     for site, mk in list(site_mark.items()):
         owners = mark_owner.get(mk, ())
         for h in owners:
             holder = byval[scc_of[site[0]]].get(h)
             if holder is not None:
                 RESET[site] = "the mark `%s` is kept in a `%s`, and %s (inside the same recursion) creates a fresh `%s`: the visited set is emptied on the way round" % (out.get(site), h, holder, h)
-                out.pop(site, None)
+                if h.startswith("std::collections::"):
+                    # a set handed round as a parameter is emptied only on cycles that pass through the function
+                    # creating it: the mark stays valid for the cycles that do not (judged per call site in `uncut`)
+                    COND[site] = holder
+                else:
+                    out.pop(site, None)
     return out
 
 
 RESET = {}
+COND = {}
 
 
 def uncut(F, scc_of, marked, f, c, tgts):
     """is there a cycle through this call site that uses no marked call site?  (reduced graph:
     SCC edges that have at least one unmarked site)"""
-    if (f.id, c.bb) in marked:
+    holder = COND.get((f.id, c.bb))
+    if (f.id, c.bb) in marked and holder is None:
         return False, marked[(f.id, c.bb)]
     scc = scc_of[f.id]
     # reduced adjacency
     def succs(g):
         ff = F.fns[g]
         for cc in ff.calls:
-            if (g, cc.bb) in marked:
+            if (g, cc.bb) in marked and (g, cc.bb) not in COND:
                 continue
             for t in (cc.local_target or []):
                 if scc_of.get(t) == scc:
@@ -721,6 +734,28 @@ def uncut(F, scc_of, marked, f, c, tgts):
         for t in F.edges.get(g, ()):
             if scc_of.get(t) == scc and any(k != "call" for k, _ in F.edge_sites.get((g, t), [])):
                 yield t
+    def reach(src, avoid=None):
+        seen = set()
+        work = [src]
+        while work:
+            x = work.pop()
+            if x in seen or x == avoid:
+                continue
+            seen.add(x)
+            work.extend(succs(x))
+        return seen
+    if holder is not None:
+        # the mark at this site is void only on a cycle through the function that creates the set afresh
+        for t in tgts:
+            if t == f.id:
+                if holder == f.id:
+                    return True, None
+                continue
+            first = reach(t, avoid=f.id)
+            if holder in first and (f.id in reach(holder) or holder == f.id):
+                return True, None
+        RESET.pop((f.id, c.bb), None)
+        return False, marked[(f.id, c.bb)] + " (no cycle through this call passes the function that creates the set)"
     for t in tgts:
         seen = set()
         work = [t]
